@@ -258,7 +258,10 @@ fn matrix(b: &Bounds) -> Vec<Case> {
     for kind in UKind::ALL {
         for topo in Topo::ALL {
             for &size in &b.udp_lens {
-                v.push(Case::Udp(UdpCase { kind, size, topo }));
+                let c = UdpCase { kind, size, topo };
+                if c.valid() {
+                    v.push(Case::Udp(c));
+                }
             }
         }
     }
@@ -527,7 +530,7 @@ pub fn run(args: &Args) -> Report {
     if n_done < n_distinct {
         rep.caps_hit.push(format!("wall budget of {} s reached after deadline failures were confirmed: {} of {} matrix points were not run", budget.as_secs(), n_distinct - n_done, n_distinct));
     }
-    rep.rule = "complete product: TCP = entry point (7) x connections x chunking (3) x [close order (4) x client->target length x target->client length + target-refuses x client->target length]; UDP = entry (UDP remote, SOCKS5 UDP with IPv4 header, with domain header) x topology (1 client, 3 clients, 1 socket to 2 entry points) x payload length, 3 request/reply exchanges per leg; one execution per point (more only after a lost port race or a deadline hit); a case is distinct when its parameter tuple is distinct".into();
+    rep.rule = "complete product: TCP = entry point (7) x connections x chunking (3) x [close order (4) x client->target length x target->client length + target-refuses x client->target length]; UDP = entry (UDP remote, SOCKS5 UDP with IPv4 header, with domain header) x topology (1 client, 3 clients, 1 socket to 2 entry points; SOCKS5 only: 1 association alternating between 2 targets with the same host string and different ports, and between 2 targets with different host strings 127.0.0.1/127.0.0.2 and the same port) x payload length, 3 request/reply exchanges per leg; one execution per point (more only after a lost port race or a deadline hit); a case is distinct when its parameter tuple is distinct".into();
     rep.bounds.insert("tcp_entry_points".into(), json!(Entry::ALL.iter().map(|e| e.name()).collect::<Vec<_>>()));
     rep.bounds.insert("tcp_payload_lengths".into(), json!(b.tcp_lens));
     rep.bounds.insert("tcp_connections".into(), json!(b.concs));
